@@ -74,6 +74,10 @@ CHECKS = {
   technique='property-based testing (Hypothesis): differential between file formats of one generated table (pickle / HDF5 with declared unit / Exo-Transmit; k-table pickle / HDF5; CIA pickle / HITRAN text) anchored to a reference interpolation of the generated table in SI, name-sanitising reference, and generated histories of cache operations with invariants (same object until cleared, loaded from the configured path, interpolation mode in force)',
   text='Generated tables, pressure units, file names (plain and isotopologue), HITRAN files with per-range temperature subsets and negative entries, and cache operation sequences; exploration level.',
   note='Real line-list files are absent: files are written by the harness in each reader\'s documented layout; HDF5 molecule names are generated already sanitised; units limited to those astropy parses.'),
+ 'C16': dict(
+  technique='property-based testing (Hypothesis): round-trip oracle (store_dictionary -> h5py read-back of generated nested dictionaries; model.write -> taurex_hdf5_to_model -> same types, parameters and spectrum) and self-consistency predicates on generated spectrum outputs against the binner and the C05 reference',
+  text='Generated nested dictionaries of every storable kind (including ragged lists and lists of dictionaries), spectrum outputs for three binners x three output sizes, and models of drawn component combinations written and rebuilt; exploration level.',
+  note='String lists limited to the S64 ASCII column that is the file format; constructor arguments the writers do not store are reported only if they change fitted parameters or the spectrum.'),
 }
 
 NOT_APPLICABLE = {}
